@@ -1252,6 +1252,36 @@ func helperGuarded(p *Program, f *ssa.Function, call ssa.Instruction) (bool, str
 		}
 	})
 	if !found {
+		// the same guard written with a look-up first and the put-if-absent only on a
+		// miss: no feasible path reaches the call without the helper, and none does
+		// once the helper has reported the key as already present
+		eachInstr(f, func(_ *ssa.BasicBlock, i ssa.Instruction) {
+			hc, ok := i.(*ssa.Call)
+			if !ok || found || hc.Referrers() == nil {
+				return
+			}
+			ts := asTestAndSet(normFn(p, hc.Call.StaticCallee()))
+			if ts == nil {
+				return
+			}
+			isCall := func(j ssa.Instruction) bool { return j == call }
+			if feasibleReach(f, nil, nil, isCall, func(j ssa.Instruction) bool { return j == ssa.Instruction(hc) }) {
+				return
+			}
+			for _, r := range *hc.Referrers() {
+				ex, ok := r.(*ssa.Extract)
+				if !ok || ex.Index != ts.boolIndex {
+					continue
+				}
+				// continue after the Extract with "found" known
+				if !feasibleReach(f, ex, map[ssa.Value]bool{ex: ts.foundIs}, isCall, nil) {
+					found = true
+					why = fmt.Sprintf("every feasible path to the call passes the test-and-set helper %s, and none continues to it once the helper reported the key as already present", fnName(ts.fn))
+				}
+			}
+		})
+	}
+	if !found {
 		return false, "no test-and-set helper result controls the call"
 	}
 	return true, why
